@@ -33,7 +33,7 @@ def check(run, only_cases=None):
     thorough = run.tier == "thorough"
     run.rule = ("inputs: every code point (thorough) or all < U+3000 + range edges + a seeded stride (quick) as "
                 "one-character strings, every invalid byte, all pairs over a 43-character boundary alphabet, seeded "
-                "random strings; x 5 escapers. non-trivial = the input contains a character the escaper rewrites "
+                "random strings; x 5 escapers, each called directly and as registered in the Twig environment. non-trivial = the input contains a character the escaper rewrites "
                 "(output differs from input)")
     run.assumptions = ["decoders of the target contexts are the ones transcribed in spec/Escape.tla",
                        "html_attr: inputs with control characters and css: inputs with U+0000 are judged on inertness only"]
@@ -46,6 +46,9 @@ def check(run, only_cases=None):
             raise common.Infra("negative config %s was not rejected: predicates are vacuous" % neg)
     # binding T: real outputs accepted by the spec
     cases = only_cases or common.run_gen("c13", 2000 if thorough else 200, run.seed, run.tier)
+    if only_cases is None:
+        # the same inputs through the escapers the Twig environment registers (what templates and the escape filter call)
+        cases = cases + [dict(c, id=c["id"] + "/env", via="env") for c in cases]
     obs, hooks = common.run_pool(cases, deadline_ms=5000)
     run.hooks = hooks
     events, idx = [], []
